@@ -4,7 +4,9 @@ C15 — datagram connections keep message boundaries and respect the path MTU (D
 Property theorems only (helpers are in `Gotlcp.Lemmas.DtlcpTx`).  Every statement
 quantifies over every payload, every `Config.PMTU` value (an arbitrary integer) and every
 cipher parameter set of the given kind (any nonce / tag / MAC length; any block size for
-CBC).  Model: `Gotlcp.Model.DtlcpTx`, fed with the regenerated constants `here`.
+CBC).  Model: `Gotlcp.Model.DtlcpTx`, instantiated with `here` = `Model.DtlcpTx.treeConsts` (literal
+default PMTU / padding budget, justified by the translation tie `Gotlcp.Tie.RecordSize.Dtlcp`, not
+by text-matching facts) over the two package constants `recordHeaderLen`, `maxPlaintext`.
 -/
 import Gotlcp.Lemmas.DtlcpTx
 import Gotlcp.Generated.Facts
@@ -18,10 +20,12 @@ open Gotlcp.Model.DtlcpTx
 open Gotlcp.Lemmas.DtlcpTx
 open Gotlcp.Spec
 
-/-- the constants of this tree -/
-def here : Consts :=
-  { defaultPmtu := Facts.dtlcp.txDefaultPmtu, recordHeaderLen := Facts.dtlcp.recordHeaderLen,
-    maxPlaintext := Facts.dtlcp.maxPlaintext, cbcBudgetsPadding := Facts.dtlcp.txCbcBudgetsPadding }
+/-- the constants of this tree: `Model.DtlcpTx.treeConsts` (default PMTU 1400, CBC padding
+budgeted — literals, tied to the text of `maxPayloadSizeForWrite` / `explicitNonceLen` that is in the
+tree by the translation proofs `C15_src_*` below, for all inputs) over the package constants
+`recordHeaderLen` and `maxPlaintext` (evaluated by the extractor).  The same record as
+`Tie.RecordSize.Dtlcp.K` (`C15_src_translated`) and as the oracle's. -/
+def here : Consts := treeConsts Facts.dtlcp.recordHeaderLen Facts.dtlcp.maxPlaintext
 
 /-- the two protected suites' size parameters, from the regenerated facts where the source has
 them (explicit nonce = aeadNonceLength − noncePrefixLength, MAC = 32, CBC IV = block = 16);
@@ -29,16 +33,19 @@ the 16-byte GCM tag is the library's constant -/
 def gcmHere : Cipher := .aead (Facts.dtlcp.aeadNonceLength - Facts.dtlcp.noncePrefixLength) 16
 def cbcHere : Cipher := .cbc 16 32
 
-/-- the source shapes the model transcribes (regenerated from the Go AST on every run) -/
+/-- the source shapes the model transcribes (regenerated from the Go AST on every run).
+The text of `Conn.maxPayloadSizeForWrite` and `halfConn.explicitNonceLen` themselves (where the PMTU
+is read, the default 1400, the base budget, the AEAD / CBC arms, the two clamps and their order, the
+arms of the nonce switch) is NOT pinned by text-matching facts any more: both functions are
+translated on every run and `Gotlcp.Tie.RecordSize.Dtlcp` proves the translated text equal to the
+model instantiated with `here` for all inputs (`C15_src_*` below) — a semantic edit breaks those
+proofs, a renaming does not.  Pinned here: the model's constants agree with the documented ones of
+the spec; the code the translation does not reach (`prefixNonceAEAD`'s nonce length, `encrypt`, the
+splitting loop, `write` / `flush`, the entry points, the receive side). -/
 theorem C15_facts :
     Facts.missing = [] ∧
-    Facts.dtlcp.txDefaultPmtu = DtlcpTxSpec.defaultPmtu ∧ Facts.dtlcp.recordHeaderLen = DtlcpTxSpec.recordHeader ∧
+    here.defaultPmtu = DtlcpTxSpec.defaultPmtu ∧ Facts.dtlcp.recordHeaderLen = DtlcpTxSpec.recordHeader ∧
     Facts.dtlcp.maxPlaintext = DtlcpTxSpec.maxPlaintext ∧
-    Facts.dtlcp.txPmtuSource = "c.config.PMTU" ∧
-    Facts.dtlcp.txBase = "pmtu - recordHeaderLen - c.out.explicitNonceLen()" ∧
-    Facts.dtlcp.txAeadBudget = ["maxPayload -= ciph.Overhead()"] ∧
-    Facts.dtlcp.txClampUpper = true ∧ Facts.dtlcp.txClampLower = true ∧ Facts.dtlcp.txClampOrder = true ∧
-    Facts.dtlcp.txNonceAead = ["return c.explicitNonceLen()"] ∧ Facts.dtlcp.txNonceCbc = ["return c.BlockSize()"] ∧
     Facts.dtlcp.txAeadExplicitNonce = "return f.NonceSize()" ∧
     Facts.dtlcp.txAeadNonceSize = "return aeadNonceLength - noncePrefixLength" ∧
     Facts.dtlcp.aeadNonceLength - Facts.dtlcp.noncePrefixLength = 8 ∧
@@ -85,10 +92,11 @@ def cfgHere : CfgConsts :=
 selector in the package are the nil default of `clientHandshake` and the installation of the
 `GetConfigForClient` result in `selectConfigForClient` (called by `serverHandshake` only);
 no statement writes (or takes the address of) a `PMTU` field; the only composite literal with a
-`PMTU` key is the one `Config.Clone` returns, and it stores the receiver's value. -/
+`PMTU` key is the one `Config.Clone` returns, and it stores the receiver's value.
+(That `maxPayloadSizeForWrite` reads `c.config.PMTU` is no text fact any more: the translated
+function is proved equal to the model AT `c.config.PMTU` of the view, `C15_src_max_payload_is_model`.) -/
 theorem C15_config_facts :
     Facts.missing = [] ∧
-    Facts.dtlcp.txPmtuSource = "c.config.PMTU" ∧
     Facts.dtlcp.txCfgCtor = ["Client: config", "Server: config"] ∧
     Facts.dtlcp.txCfgAssigns = ["Conn.clientHandshake: c.config = defaultConfig()",
                                 "Conn.selectConfigForClient: c.config = configForClient"] ∧
@@ -103,13 +111,24 @@ theorem C15_config_facts :
     cfgHere = { cloneCopiesPmtu := true, forClientInstalled := true } := by
   decide
 
+open Gotlcp.Tie.RecordSize.Dtlcp in
 /-- The repair of F9 is in the tree: the CBC branch of `maxPayloadSizeForWrite` rounds the
-budget down to the block size, keeps one padding byte and subtracts the MAC. -/
+budget down to the block size, keeps one padding byte and subtracts the MAC.  Not a text fact: the
+function TRANSLATED from the source, run on any view whose `c.out` is CBC (any power-of-two block
+size up to `2^62`, any non-negative MAC length, any PMTU a Go `int` holds), returns the model's
+value on a tree that budgets the padding — by the tie `Tie.RecordSize.Dtlcp.tie_maxPayloadSizeForWrite`. -/
 theorem C15_cbc_padding_budgeted :
-    Facts.dtlcp.txCbcBudgetsPadding = true ∧
-    Facts.dtlcp.txCbcBudget = ["blockSize := ciph.BlockSize()", "maxPayload = (maxPayload & ^(blockSize - 1)) - 1",
-                               "maxPayload -= c.out.mac.Size()"] := by
-  decide
+    here.cbcBudgetsPadding = true ∧
+    ∀ (c : Src.dtlcp.Conn) (typ : BitVec 8) (b : Src.dtlcp.goCBC) (k : Nat),
+      c.out.cipher = .goCBC b → k ≤ 62 → b.blockSize = (2 : Int) ^ k → 0 ≤ c.out.mac.size →
+      -(2 : Int) ^ 63 ≤ c.config.PMTU → c.config.PMTU < (2 : Int) ^ 63 →
+      Src.dtlcp.Conn.maxPayloadSizeForWrite c typ
+        = .ok (maxPayloadSizeForWrite { here with cbcBudgetsPadding := true } c.config.PMTU
+                (.cbc (2 ^ k) c.out.mac.size.toNat) : Int) := by
+  refine ⟨rfl, ?_⟩
+  intro c typ b k hc hk hb hmac hlo hhi
+  obtain ⟨n, h, _, hn, _⟩ := tie_maxPayloadSizeForWrite c typ _ (Matches.cbc b k hc hk hb hmac) hlo hhi
+  rw [h, hn]; rfl
 
 /-- **The maximum payload is always usable**: between 1 and `maxPlaintext`, for every PMTU
 (also zero, negative, tiny, huge) and every cipher — so the splitting loop terminates. -/
@@ -156,7 +175,7 @@ theorem C15_empty_sends_nothing (pmtu : Int) (c : Cipher) : writeTo here pmtu c 
   simp [writeTo, datagramsDirect, writeRecordPieces, splitLoop]
 
 /-- the path MTU in force -/
-def effPmtu (pmtu : Int) : Int := if pmtu ≤ 0 then (Facts.dtlcp.txDefaultPmtu : Int) else pmtu
+def effPmtu (pmtu : Int) : Int := if pmtu ≤ 0 then (here.defaultPmtu : Int) else pmtu
 
 /-- **Application datagrams fit the path MTU — no cipher and every AEAD** (any explicit
 nonce and tag length), for every PMTU that leaves room for one byte (`rawBudget ≥ 1`; below
@@ -169,7 +188,7 @@ theorem C15_app_fits_aead (pmtu : Int) (e ov n : Nat)
   simp only [explicitNonceLen] at h1 hw
   unfold recordLen effPmtu
   simp only []
-  have e1 : (here.defaultPmtu : Int) = Facts.dtlcp.txDefaultPmtu := rfl
+  have e1 : (here.defaultPmtu : Int) = 1400 := rfl
   split at h1 <;> split <;> omega
 
 theorem C15_app_fits_plain (pmtu : Int) (n : Nat)
@@ -180,7 +199,7 @@ theorem C15_app_fits_plain (pmtu : Int) (n : Nat)
   simp only [explicitNonceLen] at h1 hw
   unfold recordLen effPmtu
   simp only []
-  have e1 : (here.defaultPmtu : Int) = Facts.dtlcp.txDefaultPmtu := rfl
+  have e1 : (here.defaultPmtu : Int) = 1400 := rfl
   split at h1 <;> split <;> omega
 
 /-- **Application datagrams fit the path MTU — CBC**, for every block size and MAC length,
@@ -233,7 +252,7 @@ configured — when the `*Config` is handed to `Client` / `Server` directly, aft
 `Config.Clone()` calls, and when a listener configuration's `GetConfigForClient` returns it
 (cloned any number of times; whatever the listener's own PMTU). -/
 theorem C15_config_pmtu_in_force (r : Reach) (pmtu : Int) : pmtuRead cfgHere r pmtu = pmtu := by
-  have hk : cfgHere = { cloneCopiesPmtu := true, forClientInstalled := true } := C15_config_facts.2.2.2.2.2.2.2.2.2.2.2
+  have hk : cfgHere = { cloneCopiesPmtu := true, forClientInstalled := true } := C15_config_facts.2.2.2.2.2.2.2.2.2.2
   have hv : ∀ v : Via, viaPmtu cfgHere v pmtu = pmtu := by
     intro v
     induction v with
@@ -299,10 +318,10 @@ theorem C15_record_fits_receive_buffer (pmtu : Int) (c : Cipher) (hc : c = .none
 
 /-! ### what the peer reads -/
 
-/-- the replay-window parameters of this tree (regenerated facts; `Gotlcp.Model.Replay`) -/
+/-- the replay-window parameters of this tree: `Model.Replay.treeParams` (tied to the text of
+dtlcp/replay.go by the translation proofs `Gotlcp.Tie.Replay`, as in C16 — not text-matching facts) -/
 def replayHere : Gotlcp.Model.Replay.Params :=
-  { floor := Facts.dtlcp.replayFloor, newCeil := Facts.dtlcp.replayNewCeil,
-    spanCeil := Facts.dtlcp.replaySpanCeil, default := Facts.dtlcp.defaultReplayWindowSize }
+  Gotlcp.Model.Replay.treeParams Facts.dtlcp.defaultReplayWindowSize
 
 /-- **ReadFrom returns exactly that payload.** For every record protection `P` obeying the
 round-trip law (`Laws`; AEAD and CBC alike — `C04_record_roundtrip` is the instance), every
